@@ -450,8 +450,9 @@ package parser
 //@   requires[C04] opening-character-is-marked: len(l.aliases) == 0 ==> l.pos.line == l.line && l.pos.col == l.col - 1
 //@   ensures[C03 C04] position-resynchronised: result ==> l.line == ll.line && l.col == ll.col && l.pos == ll.pos
 //@   assert[C08] at call parser.(*lexer).run: nested-lexer-starts-with-its-own-empty-queue: ll.heredoc.n == 0 && len(ll.heredoc.stack) == 0 && ll != l
+//@   assert[C17 C01] at call parser.(*lexer).run: nested-lexer-reads-the-same-text: ll.aliases == l.aliases && ll.r == l.r
 //@   assert[C10] at call sync.(*Mutex).Unlock: nested-error-recorded: l.err != nil && (!(ll.err is Error) && old(l.err) == nil ==> l.err == ll.err)
-//@   waive bounds "ll.cmds[0]" needs the grammar-level fact that an accepted substitution yields exactly one command
+//@   waive bounds "ll.cmds[0]" the nested lexer re-reads the opening character of the substitution from the same text (alias stack and reader, asserted above), so an accepted nested parse has consumed at least "(" ... ")": that it then yields exactly one command is a fact about the grammar, not proved here (before fix 4cd9ec9 the nested lexer ignored the alias stack and this index did panic)
 //@   waive assert "ll.cmds[0].(*ast.Cmd)" needs the grammar-level fact that an accepted substitution yields a *ast.Cmd
 
 // The value of an assignment word starts one character after the "=": the
